@@ -16,6 +16,24 @@ func TestMain(m *testing.M) { os.Exit(ev.Main(ID, m)) }
 
 func classes(c Case) []string {
 	cl := []string{"style-" + c.Style}
+	if c.Err != "" {
+		cl = append(cl, "error-value-"+c.Err)
+	}
+	if c.Rich {
+		cl = append(cl, "writer-with-WriteString-WriteByte")
+	}
+	if c.Repeat > 0 {
+		cl = append(cl, "big-table")
+	}
+	hdr := false
+	for _, op := range c.Script.Ops {
+		if op.K == "hdr" {
+			hdr = true
+		}
+	}
+	if !hdr {
+		cl = append(cl, "no-header")
+	}
 	for _, op := range c.Script.Ops {
 		for _, it := range op.Items {
 			if strings.Contains(string(it.S), "\n") {
@@ -44,18 +62,25 @@ func evalAll(c Case) *ev.Violation {
 	cl := classes(c)
 	ev.R().Count("tables", 1)
 	faultPoints += int64(3 * w)
+	step := 1
+	if w > 400 {
+		step = w / 200 // big tables: a sample of the write indices (first, last and every step-th)
+	}
 	for k := 0; k < w; k++ {
+		if k%step != 0 && k != w-1 && k != w-2 {
+			continue
+		}
 		for mi, mode := range Modes {
 			// every (table, renderer, k, mode) is a distinct fault point; non-trivial if k > 0 or mode != from
 			var sample interface{}
 			if k == w/2 && mi == 1 {
 				kk := k
-				sample = Case{Script: c.Script, Style: c.Style, Align: c.Align, K: &kk, Mode: mode}
+				sample = Case{Script: c.Script, Style: c.Style, Align: c.Align, K: &kk, Mode: mode, Err: c.Err, Rich: c.Rich, Repeat: c.Repeat}
 			}
 			ev.R().Eval(sample, base*1000003+uint64(k*3+mi)+1, k > 0 || mode != "from", append(cl, "mode-"+mode)...)
 			if v := FaultPoint(c, k, mode, want); v != nil {
 				kk := k
-				ev.R().Fail(ID, Case{Script: c.Script, Style: c.Style, Align: c.Align, K: &kk, Mode: mode}, v)
+				ev.R().Fail(ID, Case{Script: c.Script, Style: c.Style, Align: c.Align, K: &kk, Mode: mode, Err: c.Err, Rich: c.Rich, Repeat: c.Repeat}, v)
 				return v
 			}
 		}
@@ -87,8 +112,30 @@ func caseGen() *rapid.Generator[Case] {
 		return short.Draw(t, "short")
 	})
 	sg := gen.ScriptGen(gen.ScriptOpts{Item: item, HdrItem: key, MinOps: 1, MaxOps: max, MaxCells: 3, HdrCells: [2]int{3, 5}, ForceHdr: true, NoSepAdd: true})
+	nohdr := gen.ScriptGen(gen.ScriptOpts{Item: item, MinOps: 1, MaxOps: max, MaxCells: 3, NoHdr: true, NoSepAdd: true})
 	return rapid.Custom(func(t *rapid.T) Case {
-		c := Case{Script: sg.Draw(t, "script"), Style: rapid.SampledFrom(Styles).Draw(t, "style"), Align: rapid.SliceOfN(rapid.IntRange(0, 3), 0, 4).Draw(t, "align")}
+		c := Case{Style: rapid.SampledFrom(Styles).Draw(t, "style"), Align: rapid.SliceOfN(rapid.IntRange(0, 3), 0, 4).Draw(t, "align")}
+		if rapid.IntRange(0, 4).Draw(t, "headerless") == 0 {
+			c.Script = nohdr.Draw(t, "script") // csv, html and the text renderers do not need a header
+		} else {
+			c.Script = sg.Draw(t, "script")
+		}
+		c.Err = rapid.SampledFrom([]string{"", "", "", "eof", "short", "closed"}).Draw(t, "err")
+		c.Rich = rapid.IntRange(0, 3).Draw(t, "rich") == 0
+		bigOneIn := 250
+		if h.Thorough() {
+			bigOneIn = 60
+		}
+		if rapid.IntRange(0, bigOneIn-1).Draw(t, "big") == 0 {
+			c.Repeat = rapid.SampledFrom([]int{60, 250}).Draw(t, "repeat") // tens of kilobytes of output
+			for _, op := range c.Script.Ops {
+				for _, it := range op.Items {
+					if len(it.S) > 200 {
+						c.Repeat = 0 // not both: a long cell replayed 250 times is megabytes per render
+					}
+				}
+			}
+		}
 		// distinct header texts, so that the JSON renderer accepts the table
 		for _, op := range c.Script.Ops {
 			if op.K == "hdr" {
